@@ -19,7 +19,7 @@ import (
 
 type c04Case struct {
 	Prog   gen.ProgramV `json:"prog"`
-	Target int          `json:"target"` // index of the rule whose premise orders are explored
+	Target int          `json:"target"`         // index of the rule whose premise orders are explored
 	Perm   []int        `json:"perm,omitempty"` // replay: only this order
 	Text   string       `json:"text,omitempty"`
 }
@@ -37,9 +37,9 @@ func (c04) Cases(tier string) int {
 }
 func (c04) Describe() core.Info {
 	return core.Info{
-		Level: "exploration",
-		Rule: "typed random programs in which one target rule is perturbed (a head / negated-atom / comparison / function-argument variable replaced by a fresh or wildcard variable, a binding atom dropped, extra negated atoms whose variables are bound by later atoms; in a quarter of the cases the rule's variables are renamed to X0, X1, ..., the names the library generates itself for wildcards) and then submitted in every premise order (all permutations for <= 4 premises, 8 random ones otherwise). Judge 1: independent range-restriction judge on the clause as written (order independent): analysis must not accept an unsafe clause. Judge 2: for accepted safe programs, evaluation must not panic or fail with an unbound-variable class of error, all stored atoms are ground, and the result equals the reference model of the clause as written (so an accepted clause evaluated with a literal ignored is caught). Non-trivial: target rule has a negated atom or comparison and >= 2 premises; distinct by program text modulo the premise order.",
-		Assumptions: []string{"rejection of a safe clause is not a violation (analysis may insist on a premise order)"},
+		Level:          "exploration",
+		Rule:           "typed random programs in which one target rule is perturbed (a head / negated-atom / comparison / function-argument variable replaced by a fresh or wildcard variable, a binding atom dropped, a column of a positive atom turned into a function expression (an input column) over an unbound, self-bound or elsewhere-bound variable, let statements reordered / self-referring / referring to an undefined variable, extra negated atoms whose variables are bound by later atoms; in a quarter of the cases the rule's variables are renamed to X0, X1, ..., the names the library generates itself for wildcards) and then submitted in every premise order (all permutations for <= 4 premises, 8 random ones otherwise). Judge 1: independent range-restriction judge on the clause as written (order independent): analysis must not accept an unsafe clause. Judge 2: for accepted safe programs, evaluation must not panic or fail with an unbound-variable class of error, all stored atoms are ground, and the result equals the reference model of the clause as written (so an accepted clause evaluated with a literal ignored is caught). Non-trivial: target rule has a negated atom or comparison and >= 2 premises; distinct by program text modulo the premise order.",
+		Assumptions:    []string{"rejection of a safe clause is not a violation (analysis may insist on a premise order)"},
 		PerCaseTimeout: 120e9,
 	}
 }
@@ -49,7 +49,7 @@ func c04FreshVar(sort string, n int) gen.TermV {
 }
 
 func (c04) Gen(r *rand.Rand, tier string, i int) any {
-	o := gen.ProgOpts{Negation: true, Compare: true, Functions: r.Intn(2) == 0, Lists: r.Intn(4) == 0, Let: r.Intn(3) == 0, Wildcards: true, Shuffle: 0, FnInAtoms: r.Intn(2) == 0}
+	o := gen.ProgOpts{Negation: true, Compare: true, Functions: r.Intn(2) == 0, Lists: r.Intn(4) == 0, Let: r.Intn(3) == 0, Wildcards: true, Shuffle: 0, FnInAtoms: r.Intn(2) == 0, Do: r.Intn(3) == 0, DoPercent: 60}
 	p := gen.RandProgram(r, o)
 	// choose target: prefer rules with negation or comparisons
 	target := r.Intn(len(p.Rules))
@@ -68,7 +68,7 @@ func (c04) Gen(r *rand.Rand, tier string, i int) any {
 	}
 	rule := p.Rules[target]
 	body := append([]gen.LitV{}, rule.Body...)
-	mode := r.Intn(10)
+	mode := r.Intn(13)
 	// lower predicates for extra negated atoms
 	var lowerPreds []gen.PredSig
 	headLevel := 1
@@ -167,6 +167,99 @@ func (c04) Gen(r *rand.Rand, tier string, i int) any {
 				l.Args = args
 			}
 			body[k] = l
+		}
+	case mode == 10 || mode == 11:
+		// a column of a positive atom becomes a function expression (an input): over a variable that nothing
+		// binds, over a head variable, or over a variable another atom binds (then the premise order decides)
+		var idx []int
+		for k, l := range body {
+			if l.K == "atom" && !strings.HasPrefix(l.Pred, ":") && len(l.Args) > 0 {
+				idx = append(idx, k)
+			}
+		}
+		if len(idx) > 0 {
+			k := idx[r.Intn(len(idx))]
+			l := body[k]
+			args := append([]gen.TermV{}, l.Args...)
+			col := r.Intn(len(args))
+			var v gen.TermV
+			switch x := r.Intn(4); {
+			case x == 0:
+				v = c04FreshVar("", 60)
+			case x == 1 && args[col].K == "var" && args[col].Name != "_":
+				v = args[col] // the variable this very column used to bind
+			default:
+				if vs := varsOfBody(); len(vs) > 0 {
+					v = gen.VarT(vs[r.Intn(len(vs))])
+				} else {
+					v = c04FreshVar("", 60)
+				}
+			}
+			shape := r.Intn(5)
+			if (shape == 0 || shape == 4) && !strings.HasPrefix(v.Name, "N") && !strings.HasPrefix(v.Name, "U") {
+				shape = 1 + r.Intn(3) // arithmetic only over number variables: type errors are not the subject
+			}
+			switch shape {
+			case 0:
+				args[col] = gen.FnT("fn:plus", v, gen.ConstT(gen.Num(1)))
+			case 1:
+				args[col] = gen.FnT("fn:list", v)
+			case 2:
+				args[col] = gen.FnT("fn:pair", v, gen.ConstT(gen.Num(int64(r.Intn(3)))))
+			case 3:
+				args[col] = gen.FnT("fn:list:cons", v, gen.ConstT(gen.ListV()))
+			default:
+				args[col] = gen.FnT("fn:minus", gen.ConstT(gen.Num(3)), v)
+			}
+			l.Args = args
+			body[k] = l
+		}
+	case mode == 12:
+		// let statements out of order, referring to themselves, or to a variable nothing defines
+		if len(rule.Transforms) == 1 && len(rule.Transforms[0]) > 0 && rule.Transforms[0][0].Var != "" {
+			st := append([]gen.StmtV{}, rule.Transforms[0]...)
+			switch x := r.Intn(4); {
+			case x == 0 && len(st) >= 2:
+				st[0], st[1] = st[1], st[0]
+			case x == 1:
+				k := r.Intn(len(st))
+				st[k].Fn = gen.FnT("fn:plus", gen.VarT(st[k].Var), gen.ConstT(gen.Num(1)))
+			case x == 2:
+				st = append(st, gen.StmtV{Var: "Z9", Fn: gen.FnT("fn:plus", gen.VarT("Z8"), gen.ConstT(gen.Num(1)))}, gen.StmtV{Var: "Z8", Fn: gen.FnT("fn:plus", gen.VarT(st[0].Var), gen.ConstT(gen.Num(1)))})
+			default:
+				st[len(st)-1].Fn = gen.FnT("fn:plus", c04FreshVar("", 50), gen.ConstT(gen.Num(1)))
+			}
+			rule.Transforms = [][]gen.StmtV{st}
+		} else if len(rule.Transforms) == 0 {
+			// give the rule a let-transform (sort preserving, values stay in the domain) whose statements
+			// are in the wrong order, or in the right order for comparison
+			var nums []string
+			for _, v := range varsOfBody() {
+				if strings.HasPrefix(v, "N") {
+					nums = append(nums, v)
+				}
+			}
+			var cols []int
+			for _, ps := range p.Preds {
+				if ps.Name == rule.Head.Pred && len(ps.Sorts) == len(rule.Head.Args) {
+					for i, s := range ps.Sorts {
+						if s == "num" {
+							cols = append(cols, i)
+						}
+					}
+				}
+			}
+			if len(nums) > 0 && len(cols) > 0 {
+				v := gen.VarT(nums[r.Intn(len(nums))])
+				st := []gen.StmtV{{Var: "Z9", Fn: gen.FnT("fn:plus", gen.VarT("Z8"), gen.ConstT(gen.Num(int64(r.Intn(3)))))}, {Var: "Z8", Fn: gen.FnT("fn:mult", v, gen.ConstT(gen.Num(0)))}}
+				if r.Intn(2) == 0 {
+					st[0], st[1] = st[1], st[0]
+				}
+				rule.Transforms = [][]gen.StmtV{st}
+				args := append([]gen.TermV{}, rule.Head.Args...)
+				args[cols[r.Intn(len(cols))]] = gen.VarT("Z9")
+				rule.Head.Args = args
+			}
 		}
 	default:
 		// drop a positive atom (may unbind variables)
@@ -373,6 +466,54 @@ func c04Ignored(p gen.ProgramV, target int, got canon.Set) string {
 	return ""
 }
 
+// c04DiagnoseFnAtom: the failing premise order contains positive atoms with a function-expression argument
+// that has no value yet, and without those atoms the rule (same order) is handled correctly.
+func c04DiagnoseFnAtom(c c04Case, fail *c04Fail) bool {
+	rule := c.Prog.Rules[c.Target]
+	if len(fail.perm) != len(rule.Body) {
+		return false
+	}
+	ordered := make([]gen.LitV, len(rule.Body))
+	for i, k := range fail.perm {
+		ordered[i] = rule.Body[k]
+	}
+	if len(gen.FnAtomsWithoutValue(ordered)) == 0 {
+		return false
+	}
+	// drop such atoms until none is left (dropping one can take the value away from another one's argument)
+	rest := ordered
+	for {
+		bad := gen.FnAtomsWithoutValue(rest)
+		if len(bad) == 0 {
+			break
+		}
+		drop := map[int]bool{}
+		for _, i := range bad {
+			drop[i] = true
+		}
+		var keep []gen.LitV
+		for i, l := range rest {
+			if !drop[i] {
+				keep = append(keep, l)
+			}
+		}
+		rest = keep
+	}
+	if len(rest) == 0 {
+		return true
+	}
+	t := c
+	t.Prog.Rules = append([]gen.ClauseV{}, c.Prog.Rules...)
+	nr := rule
+	nr.Body = rest
+	t.Prog.Rules[t.Target] = nr
+	t.Perm = make([]int, len(rest))
+	for i := range t.Perm {
+		t.Perm[i] = i
+	}
+	return c04Exec(t, nil) == nil
+}
+
 func (c04) Run(cs any) core.Result {
 	c := cs.(c04Case)
 	var res core.Result
@@ -391,6 +532,14 @@ func (c04) Run(cs any) core.Result {
 		return res
 	}
 	sig := fail.sig
+	if c04DiagnoseFnAtom(c, fail) {
+		// finding F37: not minimised further, the premise order is part of the witness
+		w := c
+		w.Perm = fail.perm
+		raw, _ := json.Marshal(w)
+		res.Violations = append(res.Violations, core.Violation{Sig: "positive-atom-function-argument-without-value", Msg: fail.msg + "\n(first detected as " + fail.sig + ")\nprogram (premises in generation order):\n" + c.Text, Witness: raw})
+		return res
+	}
 	// shrink: other rules, facts, then literals of the target rule
 	min := c
 	min.Perm = nil
